@@ -383,7 +383,7 @@ def settings_tokens(p):
                                "-" if tol is None else str(tol), ",".join(str(int(e)) for e in p.local_extensions))
 
 
-def run_recorded(problem, op, seq0, restr_tokens, fault_at=None, focus_handles=()):
+def run_recorded(problem, op, seq0, restr_tokens, fault_at=None, focus_handles=(), space_window=None):
     """Run `op` on an already constructed (Rec) problem while recording.  Returns
     (request_line, impl_answer, info)."""
     patch_all()
@@ -417,7 +417,8 @@ def run_recorded(problem, op, seq0, restr_tokens, fault_at=None, focus_handles=(
     H = " ".join("%d:%s:%s:%d" % (h, stok(s), stok(s2), ok) for (h, s), (s2, ok) in REG.H)
     # the three-copy view is a fresh problem: it runs with the default solver settings, not the circular problem's
     sett_tokens = REG.view_settings if (op.startswith("circ") and REG.view_settings) else settings_tokens(problem)
-    line = " | ".join(["solve." + op, sett_tokens, stok(seq0), restr_tokens, stok(start_seq),
+    seq0_field = stok(seq0) if not space_window else "%s %d %d" % (stok(seq0), space_window[0], space_window[1])
+    line = " | ".join(["solve." + op, sett_tokens, seq0_field, restr_tokens, stok(start_seq),
                        " ".join(map(str, cons)), " ".join(map(str, objs)), attrs, E, EF, A, H,
                        " ".join(map(str, REG.tape)), " ".join(map(str, focus_handles))]
                       + [x for cons_v, central_v, rt in REG.views
